@@ -3,7 +3,7 @@ from .. import core, gen
 from . import vcdfam
 
 PID = "C01"
-LEVEL = "translation_validation"
+LEVEL = "proof"
 RULE = ("abstract histories (signals x time steps x values) are serialised to VCD text with random legal syntax "
         "(scalar/vector/real/string, upper case, shortened vectors, 0b prefix, LF/CRLF, several changes per line, "
         "$dumpvars/$comment/$dumpoff blocks, values before the first timestamp, repeated and backwards timestamps, "
